@@ -24,6 +24,7 @@ KIT_L = [
     'nbdime.diff_utils.count_consumed_symbols', 'nbdime.diffing.sequences.diff_sequence',
     'nbdime.diffing.generic.diff_lists',
     'nbdime.diffing.snakes.compute_diff_from_snakes', 'nbdime.diffing.generic.diff_sequence_multilevel',
+    'nbdime.patching.patch_dict',
 ]
 
 
